@@ -584,7 +584,16 @@ func (e *Exec) mergeStates(ss []*State) *State {
 	sort.Strings(nl)
 	for _, k := range nl {
 		k := k
-		out.heaps[k] = mergeLeaf(func(s *State) *Node { return e.heap(s, k, e.heapSorts[k]) })
+		out.heaps[k] = mergeLeaf(func(s *State) *Node {
+			if strings.HasPrefix(k, unlockSnap) {
+				if _, ok := s.heaps[k]; !ok {
+					// not touched on this path before its Unlock: the heap as this path sees it
+					base := strings.TrimPrefix(k, unlockSnap)
+					return e.heap(s, base, e.heapSorts[base])
+				}
+			}
+			return e.heap(s, k, e.heapSorts[k])
+		})
 	}
 	// ghost
 	for k := range out.ghost {
